@@ -21,6 +21,16 @@ PROPS['C14'] = dict(
     U('line_int_n5', 'C14_line.cpp', ['VP_N=5'], weight=3),
     U('line_double_n4', 'C14_line.cpp', ['VP_N=4', 'VP_T=double'], weight=2),
     U('line_greater_n4', 'C14_line.cpp', ['VP_N=4', 'VP_GREATER'], weight=2),
+    U('rect_2x2', 'C14_rect.cpp', ['VP_R=2', 'VP_C=2', 'VP_VMAX=4'], weight=1),
+    U('rect_2x2_idx', 'C14_rect.cpp', ['VP_R=2', 'VP_C=2', 'VP_VMAX=4', 'VP_INDEX'], weight=1),
+    U('rect_2x3', 'C14_rect.cpp', ['VP_R=2', 'VP_C=3', 'VP_VMAX=3'], weight=8),
+    U('rect_3x2_idx', 'C14_rect.cpp', ['VP_R=3', 'VP_C=2', 'VP_VMAX=3', 'VP_INDEX'], weight=8),
+    U('rect_3x3', 'C14_rect.cpp', ['VP_R=3', 'VP_C=3', 'VP_VMAX=2'], tiers=['thorough'], weight=20, jobs=8),
+    U('rect_2x4', 'C14_rect.cpp', ['VP_R=2', 'VP_C=4', 'VP_VMAX=2'], tiers=['thorough'], weight=15, jobs=4),
+    U('rect_4x2_idx', 'C14_rect.cpp', ['VP_R=4', 'VP_C=2', 'VP_VMAX=2', 'VP_INDEX'], tiers=['thorough'], weight=15, jobs=4),
     U('line_int_n7', 'C14_line.cpp', ['VP_N=7'], tiers=['thorough'], weight=9),
     U('line_double_n6', 'C14_line.cpp', ['VP_N=6', 'VP_T=double'], tiers=['thorough'], weight=6),
   ])
+
+NOT_APPLICABLE = {}
+NOTES = 'Clauses outside every claim: real thread schedules/TBB execution (engine is sequential), iostream text I/O, GMP arbitrary precision, Eigen-based Coxeter point location under general affine maps, SIMD paths of boost::unordered_flat_map (compiled with -U__SSE2__), allocation failure, inputs beyond the stated bounds.'
